@@ -1,5 +1,6 @@
 import BddVerif.Lemmas.AlgoEq2VarSet
 import BddVerif.Model.NormalForm
+import BddVerif.Props.C16
 /-!
 # `mk_conjunctive_clause`, `mk_disjunctive_clause` (src/_impl_bdd_variable_set.rs:160-223) and
 # `impl From<BddValuation> for Bdd` (src/_impl_bdd_valuation.rs:183) as translated = the hand models
@@ -473,4 +474,41 @@ theorem Bdd_from_eq_model (v : Array Bool) (hv : v.size < 65536) :
   have h16 : Rust.asU16 v.size = v.size := Nat.mod_eq_of_lt hv
   rw [h16, from_sim v v.size (by omega) v.size 0 (by omega)]
   simp [VS.valuationBdd]
+
+/-! ### chained with `Props/C16.lean` and non-vacuity -/
+
+/-- `Bdd::from(valuation)` as translated: satisfied by exactly that valuation, canonical (`valuation_bdd_spec`) -/
+theorem Bdd_from_spec (v : Array Bool) (hv : v.size < 65536) :
+    ∃ r, Algo2.Bdd_from v = .ok r ∧ (∀ w, den r w = true ↔ ∀ j (h : j < v.size), w j = v[j]) ∧
+      r = canon v.size (den r) ∧ numVars r = v.size := by
+  have h := VS.sem_valuationBdd v.toList
+  refine ⟨_, Bdd_from_eq_model v hv, ?_, ?_, ?_⟩
+  · intro w
+    rw [h.den, VS.litsFn_litsFrom]
+    simp
+  · have : den (VS.valuationBdd v.toList) = _ := funext h.den
+    have e := h.eq
+    rw [← this] at e
+    simpa using e
+  · simpa using h.numVars
+
+/-- the clause constructors only read `num_vars`: concrete runs of the GENERATED functions on a 3-variable set -/
+example : Algo2.BddVariableSet_mk_conjunctive_clause (3, #[], {}) #[some true, none, some false] =
+    .ok #[⟨3, 0, 0⟩, ⟨3, 1, 1⟩, ⟨2, 1, 0⟩, ⟨0, 0, 2⟩] :=
+  (mk_conjunctive_clause_rel _ _ (by decide)).of_ok rfl
+example : Algo2.BddVariableSet_mk_disjunctive_clause (3, #[], {}) #[some true, none, some false] =
+    .ok #[⟨3, 0, 0⟩, ⟨3, 1, 1⟩, ⟨2, 1, 0⟩, ⟨0, 2, 1⟩] :=
+  (mk_disjunctive_clause_rel _ _ (by decide)).of_ok rfl
+/-- the empty clause is `false` as a disjunction -/
+example : Algo2.BddVariableSet_mk_disjunctive_clause (3, #[], {}) #[none, none] = .ok #[⟨3, 0, 0⟩] :=
+  (mk_disjunctive_clause_rel _ _ (by decide)).of_ok rfl
+/-- a fixed cell beyond `num_vars` trips the assertion (cells that are `None` there do not) -/
+example : ∃ m, Algo2.BddVariableSet_mk_conjunctive_clause (2, #[], {}) #[some true, none, some false] = .panic m :=
+  (mk_conjunctive_clause_rel _ _ (by decide)).of_panic (m := NF.assertIndex) rfl
+example : Algo2.BddVariableSet_mk_conjunctive_clause (2, #[], {}) #[some true, none, none] =
+    .ok #[⟨2, 0, 0⟩, ⟨2, 1, 1⟩, ⟨0, 0, 1⟩] :=
+  (mk_conjunctive_clause_rel _ _ (by decide)).of_ok rfl
+example : Algo2.Bdd_from #[true, false] = .ok #[⟨2, 0, 0⟩, ⟨2, 1, 1⟩, ⟨1, 1, 0⟩, ⟨0, 0, 2⟩] :=
+  Bdd_from_eq_model _ (by decide)
+
 end B.AlgoEq2VS
